@@ -1,0 +1,36 @@
+//go:build verif
+
+// Read-only exports for the verification harness in /verif (build tag
+// "verif").  This file only adds code; with the tag off it is not compiled.
+
+package nextroute
+
+// VerifNewMoveStopsUnchecked builds a stops move without running the
+// constraint estimates (what un-plan's re-insertion and the initial solution
+// do internally): the move is marked allowed.
+func VerifNewMoveStopsUnchecked(
+	planUnit SolutionPlanStopsUnit,
+	stopPositions StopPositions,
+) (SolutionMoveStops, error) {
+	return newMoveStops(planUnit, stopPositions, false)
+}
+
+// VerifStopPosition builds a stop position without validation.
+func VerifStopPosition(previous, stop, next SolutionStop) StopPosition {
+	return newStopPosition(previous, stop, next)
+}
+
+// VerifSlack returns the cached slack of a solution stop.
+func VerifSlack(stop SolutionStop) float64 {
+	return stop.solution.slack[stop.index]
+}
+
+// VerifAccumulatedWait returns the accumulated wait stored by the maximum
+// wait vehicle constraint at the stop, and whether such data is present.
+func VerifAccumulatedWait(stop SolutionStop, constraint ModelConstraint) (float64, bool) {
+	data, ok := stop.ConstraintData(constraint).(*maximumWaitVehicleConstraintData)
+	if !ok || data == nil {
+		return 0, false
+	}
+	return data.accumulatedWait, true
+}
